@@ -497,6 +497,7 @@ void cstl_hash_clear(struct cstl_hash * const h, cstl_xtor_func_t * const clr)
 
     h->bucket.count = 0;
     h->bucket.capacity = 0;
+    h->bucket.hash = NULL;
 
     h->bucket.rh.hash = NULL;
 
